@@ -215,7 +215,7 @@ func runningVsFiles(s *ctlsim.Sim, preserveOnly bool) []string {
 	return out
 }
 
-// useServerLines returns the use-server rules of a backend section, in order.
+// useServerLines returns the use-server rules of a backend section.
 func useServerLines(cfg *hapcfg.Config, backend string) string {
 	if cfg == nil {
 		return ""
@@ -230,5 +230,8 @@ func useServerLines(cfg *hapcfg.Config, backend string) string {
 			out = append(out, strings.Join(l.Tok, " "))
 		}
 	}
+	// as a set: the controller writes the rules in endpoint order, which a dynamic update may change; rules of
+	// different labels exclude each other and rules of one label all name a server of that group
+	sort.Strings(out)
 	return strings.Join(out, "; ")
 }
